@@ -477,6 +477,13 @@ func runChain(ctx *hx.Ctx, ch chain) {
 	// the report pair itself: RTPTime - r0 is the elapsed time in ticks within the float slack
 	k := int64(sr.RTPTime - ch.r0)
 	ex := new(big.Int).Mul(big.NewInt(ch.delta), big.NewInt(int64(ch.rate)))
+	// after a long silence the tick count exceeds 32 bits: RTPTime is that count modulo 2^32
+	if kfull := new(big.Int).Quo(ex, big.NewInt(1000000000)); kfull.BitLen() > 31 {
+		d := new(big.Int).Sub(kfull, big.NewInt(k))
+		d.Add(d, big.NewInt(1<<31))
+		d.Rsh(d, 32)
+		k += d.Int64() << 32
+	}
 	lo2 := new(big.Int).Sub(new(big.Int).Mul(big.NewInt(k), big.NewInt(1000000000)), big.NewInt(1000000))
 	hi2 := new(big.Int).Add(new(big.Int).Mul(big.NewInt(k+1), big.NewInt(1000000000)), big.NewInt(1000000))
 	if ex.Cmp(lo2) < 0 || ex.Cmp(hi2) > 0 {
@@ -507,22 +514,31 @@ func genChain(r *hx.Rand) chain {
 	if delta > maxDelta {
 		delta = maxDelta
 	}
+	long := false
+	if rate <= 1000000 && r.Intn(6) == 0 {
+		// a long silence (sparse or paused track): hours to 30 days since the packet the report extrapolates from;
+		// the tick count passes 2^32 (the RTP time wraps) and delta*rate passes 2^63
+		long = true
+		delta = maxDelta + int64(r.U64()%uint64(30*86400*1000000000))
+	}
 	r0 := hx.Pick(r, uint32(0), 0xFFFFFFFF, 0x7FFFFFFF, 0x80000000, uint32(r.U64()), uint32(r.U64()))
 	t0 := ntpInstant(r)
 	if t0+delta >= era1 {
 		t0 = era1 - delta - 1 - int64(r.Intn(1000))
 	}
 	// the packet looked up: within 2^31 ticks of the report's RTP time
-	k := uint32(uint64(delta) * uint64(rate) / 1000000000)
+	kfull := new(big.Int).Quo(new(big.Int).Mul(big.NewInt(delta), big.NewInt(int64(rate))), big.NewInt(1000000000))
+	k := uint32(new(big.Int).And(kfull, big.NewInt(0xFFFFFFFF)).Uint64())
+	_ = long
 	off := int64(hx.Pick(r, 0, 1, -1, 3000, -3000, 1<<31-2, -(1<<31 - 1), int(int32(uint32(r.U64()))/2), r.Range(-100000, 100000)))
 	ts := r0 + k + uint32(off)
-	return chain{rate: rate, r0: r0, t0: t0, delta: delta, ts: ts, dticks: int64(k) + off, hasDticks: true}
+	return chain{rate: rate, r0: r0, t0: t0, delta: delta, ts: ts, dticks: kfull.Int64() + off, hasDticks: true}
 }
 
 func main() {
 	ctx := hx.Start("rtptime")
 	defer ctx.Finish()
-	ctx.Rule("global decoder: 1-3 tracks (rates 8000..90000, 1, 2^31-1, random, 0), initial timestamps at 0 / 2^31 / 2^32-1 / random, step sequences forward with back steps, +-(2^31-1) (crossing 2^32 every other packet), hovering at the wrap point, uniformly random 32-bit; ntp: instants 1970..2036 at second/ms/us/ns resolution incl. x.999999999 and the era edge; chain: sender report after delta (0..40000 s, multiples of 0.1 s, random ns) then PacketNTP for timestamps up to +-2^31 ticks away; non-trivial = distinct case line")
+	ctx.Rule("global decoder: 1-3 tracks (rates 8000..90000, 1, 2^31-1, random, 0), initial timestamps at 0 / 2^31 / 2^32-1 / random, step sequences forward with back steps, +-(2^31-1) (crossing 2^32 every other packet), hovering at the wrap point, uniformly random 32-bit; ntp: instants 1970..2036 at second/ms/us/ns resolution incl. x.999999999 and the era edge; chain: sender report after delta (0..40000 s, multiples of 0.1 s, random ns; one in six: a long silence of up to 30 days, RTP time wrapped, delta*rate beyond 2^63) then PacketNTP for timestamps up to +-2^31 ticks away; non-trivial = distinct case line")
 
 	if lines := ctx.ReplayLines(); lines != nil {
 		for _, l := range lines {
